@@ -3,7 +3,7 @@
 """Common file handling."""
 
 from contextlib import AbstractContextManager, nullcontext
-from io import BytesIO, StringIO
+from io import BytesIO, IOBase, StringIO
 from os import PathLike
 from typing import BinaryIO, Literal, TextIO, overload
 
@@ -41,6 +41,15 @@ def open_or_pass(
     mode: Literal["r", "w", "r+", "rb", "wb", "r+b"],
 ) -> AbstractContextManager[TextIO | BinaryIO]:
     """Open a file at a path or return an already open file."""
-    if isinstance(path, TextIO | StringIO | BytesIO | BinaryIO):
+    if is_file_object(path):
         return nullcontext(path)
     return open(path, mode)
+
+
+def is_file_object(path: object) -> bool:
+    """Return True for open files and in-memory buffers, False for paths.
+
+    Files returned by :func:`open` are not instances of ``typing.TextIO`` or
+    ``typing.BinaryIO`` but they do derive from ``io.IOBase``.
+    """
+    return isinstance(path, IOBase | TextIO | BinaryIO)
